@@ -407,8 +407,14 @@ def run_client_flags(case):
     try:
         rig.sent_messages()
         res = []
-        d = rig.conn.requestBusName('org.verif.Wanted', allowReplacement=case['allow'], replaceExisting=case['replace'],
-                                    doNotQueue=case['dnq'], errbackUnlessAcquired=case['errback'])
+        # the documented defaults (no replacement allowed, none asked for, do not queue, errback unless acquired) are relied
+        # upon where the wanted value IS the default: such keywords are left out
+        DEFAULTS = {'allowReplacement': False, 'replaceExisting': False, 'doNotQueue': True, 'errbackUnlessAcquired': True}
+        kw = {'allowReplacement': case['allow'], 'replaceExisting': case['replace'], 'doNotQueue': case['dnq'],
+              'errbackUnlessAcquired': case['errback']}
+        if case['code'] % 2:
+            kw = {k: v for k, v in kw.items() if v != DEFAULTS[k]}
+        d = rig.conn.requestBusName('org.verif.Wanted', **kw)
         d.addBoth(res.append)
         sent = [m for k, m in rig.sent_messages() if k == 'msg']
         if len(sent) != 1 or sent[0]['fields'].get(3) != 'RequestName' or sent[0]['body_sig'] != 'su':
